@@ -208,6 +208,11 @@ class kLeastAbsErrors(pathmodel.AbstractPathModelDAG):
         self.length_attr = length_attr
 
         if self.solution_weights_superset is not None:
+            # The number of layers becomes the number of given weights below; the caller's k (the bound on the
+            # number of paths) must be validated first, the parent constructor only sees the replaced value
+            if self.k is None or not isinstance(self.k, int) or self.k <= 0:
+                utils.logger.error(f"{__name__}: k must be a positive integer, not {self.k}")
+                raise ValueError(f"k must be a positive integer, not {self.k}")
             self.k = len(self.solution_weights_superset)
             self.optimization_options["allow_empty_paths"] = True
             self.optimization_options["optimize_with_safe_paths"] = False
